@@ -1,9 +1,94 @@
 package values
 
 import (
+	"fmt"
 	"reflect"
 	"sort"
 )
+
+// SortedMapKeys returns the keys of the map rv in a deterministic order:
+// booleans, integers, floats and strings are ordered by value (in that order of
+// kinds); any other keys are ordered by their type name and formatted value.
+// Go randomizes map iteration order, so anything that turns a map into a
+// sequence must use this to make rendering repeatable.
+func SortedMapKeys(rv reflect.Value) []reflect.Value {
+	keys := rv.MapKeys()
+	sort.SliceStable(keys, func(i, j int) bool { return compareMapKeys(keys[i], keys[j]) < 0 })
+	return keys
+}
+
+func mapKeyRank(v reflect.Value) int {
+	switch v.Kind() {
+	case reflect.Bool:
+		return 1
+	case reflect.Int, reflect.Int8, reflect.Int16, reflect.Int32, reflect.Int64:
+		return 2
+	case reflect.Uint, reflect.Uint8, reflect.Uint16, reflect.Uint32, reflect.Uint64, reflect.Uintptr:
+		return 3
+	case reflect.Float32, reflect.Float64:
+		return 4
+	case reflect.String:
+		return 5
+	case reflect.Invalid:
+		return 0
+	default:
+		return 6
+	}
+}
+
+func compareMapKeys(a, b reflect.Value) int {
+	for a.Kind() == reflect.Interface {
+		a = a.Elem()
+	}
+	for b.Kind() == reflect.Interface {
+		b = b.Elem()
+	}
+	ra, rb := mapKeyRank(a), mapKeyRank(b)
+	if ra != rb {
+		return ra - rb
+	}
+	less := false
+	switch ra {
+	case 0:
+		return 0
+	case 1:
+		less = !a.Bool() && b.Bool()
+		if a.Bool() == b.Bool() {
+			return 0
+		}
+	case 2:
+		if a.Int() == b.Int() {
+			return 0
+		}
+		less = a.Int() < b.Int()
+	case 3:
+		if a.Uint() == b.Uint() {
+			return 0
+		}
+		less = a.Uint() < b.Uint()
+	case 4:
+		if a.Float() == b.Float() {
+			return 0
+		}
+		less = a.Float() < b.Float()
+	case 5:
+		if a.String() == b.String() {
+			return 0
+		}
+		less = a.String() < b.String()
+	default:
+		sa := fmt.Sprintf("%s %v", a.Type(), a.Interface())
+		sb := fmt.Sprintf("%s %v", b.Type(), b.Interface())
+		if sa == sb {
+			return 0
+		}
+		less = sa < sb
+	}
+	if less {
+		return -1
+	}
+	return 1
+}
 
 // Sort any []any value.
 func Sort(data []any) {
